@@ -6,7 +6,7 @@
    directly on single-point corruptions of valid documents. *)
 From Coq Require Import NArith ZArith List Bool String.
 Import ListNotations.
-From Y Require Import Prelude Node Tables NodeOps Types Recognize Loader ErrRun ErrorMarks.
+From Y Require Import Prelude Node Tables NodeOps Types Recognize Loader ErrRun ErrorMarks ClassRoundTrip ErrorKeys ErrorCites.
 Open Scope N_scope.
 
 (* Every position mentioned anywhere in the recogniser's error tree -- for documents, types and class hierarchies of
@@ -28,6 +28,55 @@ Theorem C17_root_failure_cites : forall o reg f n c res,
 Proof. exact root_failure_cites. Qed.
 Print Assumptions C17_root_failure_cites.
 
+(* EVERY recognition that does not end with exactly one type -- at the root or at any depth, for every type, every
+   registry (hierarchies, abstract classes, arbitrary custom recognisers) and every document -- yields an error tree whose
+   printed part (its leaves) cites at least one position.  Process raises RecognitionError with exactly this tree
+   (C03_exactly_one_or_fail), so every such RecognitionError cites a position.  True since fixes 23bf2f2, 8ba5adb and c13638b;
+   each of the three defects was a counterexample to this statement. *)
+Theorem C17_every_failure_cites : forall o reg fuel n T res,
+  recognize o reg fuel n T = Ok res -> List.length (fst res) <> 1%nat -> leaf_marks (snd res) <> [].
+Proof. intros o reg fuel n T res E. exact (proj1 (every_failure_cites o reg fuel) n T res E). Qed.
+Print Assumptions C17_every_failure_cites.
+
+(* The strong claim, on hierarchy-free ("flat": no custom hooks, no registered sub- or superclasses) models, for mappings
+   without an application tag, of every size: EVERY failure to recognise a mapping as a class is explained by one
+   constructor parameter p with a real defect --
+     a required key that is absent under both spellings,   printed: the start of the mapping and the key's name;
+     a key given twice,                                    printed: the start of the mapping and the key's name;
+     a value not recognised as p's type,                   printed: exactly what the failed recognition of that VALUE prints
+   (positions inside the value by C17_printed_positions_inside; for a built-in scalar type the value's own position by
+   C17_wrong_scalar_cites_itself).  With a single corrupted place there is one defective parameter, so it is the one cited.
+   That a defect does make recognition fail is C02_class_rule. *)
+Theorem C17_flat_class_failure_explained : forall o reg, flat reg ->
+  forall f t ps m c k params extra e,
+  find_cls reg c = Some k -> c_shape k = ShObj params extra -> uprefix core_prefix t = true ->
+  recognize o reg (S (S f)) (Map t ps m) (TClass c) = Ok ([], e) ->
+  exists e', leaf_marks e = leaf_marks e' ++ [] /\ leaf_keys e = leaf_keys e' ++ [] /\
+             exists p, In p params /\ explained (recognize o reg f) (Map t ps m) ps p e'.
+Proof. exact flat_class_failure. Qed.
+Print Assumptions C17_flat_class_failure_explained.
+Theorem C17_explanation_prints : forall rec n ps p e, explained rec n ps p e ->
+  (leaf_marks e = [nmark n] /\ exists name, leaf_keys e = [name] /\ (name = p_name p \/ name = dashed (p_name p))) \/
+  (exists name sub res, (name = p_name p \/ name = dashed (p_name p)) /\ get_attr_ps name ps = Ok sub /\
+      rec sub (p_ty p) = Ok res /\ fst res = [] /\ leaf_marks e = leaf_marks (snd res) ++ []).
+Proof. exact explained_prints. Qed.
+Print Assumptions C17_explanation_prints.
+(* a value of the wrong kind at a built-in scalar type is cited at its own position *)
+Theorem C17_wrong_scalar_cites_itself : forall o reg f n T e,
+  match T with TStr | TInt | TFloat | TBool | TDate | TPath => True | _ => False end ->
+  recognize o reg (S f) n T = Ok ([], e) -> leaf_marks e = [nmark n] /\ leaf_keys e = [].
+Proof.
+  intros o reg f n T e HT H.
+  assert (G : rec_scalar n T = ([], e) \/ rec_path n = ([], e)).
+  { destruct T; try contradiction; cbn [recognize] in H; inversion H; auto. }
+  clear H. destruct G as [H|H]; unfold rec_scalar, rec_path in H; destruct n as [t v m|t l m|t ps m];
+    repeat match type of H with
+           | context [match ?x with Some _ => _ | None => _ end] => destruct x
+           | context [if ?b then _ else _] => destruct b
+           end; try discriminate H; injection H as <-; split; reflexivity.
+Qed.
+Print Assumptions C17_wrong_scalar_cites_itself.
+
 (* non-vacuity: a missing required key is reported at the start of the mapping and names the key *)
 Local Open Scope string_scope.
 Definition ex_k : cls :=
@@ -42,3 +91,6 @@ Example C17_ex : match recognize [] [ex_k] 10 ex_doc (TClass (u "K")) with
                  | Err _ => ([], [], [])
                  end = ([], [(2, 0)%nat], [u "size"]).
 Proof. vm_compute. reflexivity. Qed.
+(* the hypotheses of the strong claim are satisfiable: the example registry is flat *)
+Example C17_ex_flat : flat [ex_k].
+Proof. apply flatb_sound. vm_compute. reflexivity. Qed.
